@@ -611,3 +611,21 @@ def _(e, c, a):
 
 @model(r'^std::type_name')
 def _(e, c, a): return RStr('<type>')
+
+
+# ---------------------------------------------------------------- either::Either / itertools::Either
+@model(r'(?:^|::)Either(<.*>)?::as_ref$|(?:^|::)Either(<.*>)?::as_mut$')
+def _(e, c, a):
+    v = un(a[0]); return Enum('Either', v.variant, [Ref(v.f[0])])
+
+
+@model(r'(?:^|::)Either(<.*>)?::(left|right)$')
+def _(e, c, a):
+    v = un(a[0]) if isinstance(a[0], Ref) else a[0]
+    want = 0 if c.rstrip().endswith('left') else 1
+    return Some(v.f[0].v) if v.variant == want else NONE()
+
+
+@model(r'(?:^|::)Either(<.*>)?::(is_left|is_right)$')
+def _(e, c, a):
+    v = un(a[0]); return v.variant == (0 if c.rstrip().endswith('is_left') else 1)
